@@ -5,7 +5,7 @@
      sig_of h   the implementation's extraction loop run on the abstract extension list of h
    wf h    = h is an RFC-conformant ClientHello that fits one record (see Spec/Ja4Spec.v)
    known h = h is in one of the documented classes on which the unchanged code deviates *)
-From Coq Require Import List NArith Permutation.
+From Coq Require Import List NArith Bool Permutation.
 From Coq Require Import Strings.Byte.
 From HN Require Import Base.Bytes Model.TlsHello Model.Ja4 Spec.Ja4Spec Proofs.TlsWireProofs Proofs.Ja4Proofs.
 Import ListNotations.
@@ -129,14 +129,19 @@ Theorem C04_Known_alpn_refuted :
   (exists h, wf h = true /\ known_alpn h = true /\ result_line (parse_tls_client_hello (encode_hello h)) <> Ja4Spec.line h).
 Proof. exact Known_alpn_single_char_refuted. Qed.
 Print Assumptions C04_Known_alpn_refuted.
-Theorem C04_Known_version_refuted :
-  (exists h, wf h = true /\ known_version h = true /\ result_line (parse_tls_client_hello (encode_hello h)) <> Ja4Spec.line h).
-Proof. exact Known_version_ssl2_refuted. Qed.
-Print Assumptions C04_Known_version_refuted.
-Theorem C04_Known_pseudo_grease_refuted :
-  (exists h, wf h = true /\ known_pseudo_grease h = true /\ result_line (parse_tls_client_hello (encode_hello h)) <> Ja4Spec.line h).
-Proof. exact Known_pseudo_grease_refuted. Qed.
-Print Assumptions C04_Known_pseudo_grease_refuted.
+(* former known class K-version (legacy SSL 2.0, DTLS codes), repaired: the old witnesses now agree *)
+Theorem C04_version_former_witnesses_agree :
+  forallb (fun h => wf h && negb (known h)
+                    && bytes_eqb (result_line (parse_tls_client_hello (encode_hello h))) (Ja4Spec.line h))
+          [w_ver1b; w_ver2; w_ver3; w_ver4] = true.
+Proof. exact version_former_witnesses_agree. Qed.
+Print Assumptions C04_version_former_witnesses_agree.
+(* former known class K-ext (extension types 0x?a?a outside RFC 8701), repaired: the old witness now agrees *)
+Theorem C04_pseudo_grease_former_witness_agrees :
+  wf w_ext1 = true /\ known w_ext1 = false
+  /\ result_line (parse_tls_client_hello (encode_hello w_ext1)) = Ja4Spec.line w_ext1.
+Proof. exact pseudo_grease_former_witness_agrees. Qed.
+Print Assumptions C04_pseudo_grease_former_witness_agrees.
 
 (* ---- tie to the source: the GREASE table is TLS_GREASE_VALUES of tls.rs NOW (Gen/Consts.v is regenerated
    from /repo on every run) ---- *)
